@@ -220,6 +220,9 @@ func genIntProgram(t numType, r *rand.Rand, thorough bool, rot int) (map[string]
 	b.WriteString("\n}\n\n")
 	fmt.Fprintf(&b, "var sink %s\n\n", t.Name)
 	fmt.Fprintf(&b, "func side(v %s) %s { sink ^= v; return v }\n\n", t.Name, t.Name)
+	// operands with ordered side effects: every operand is evaluated, once, left to right,
+	// whatever the value of the other operand is (shift counts >= the width included)
+	fmt.Fprintf(&b, "var sideOrd uint64\n\nfunc sideo(v %s, tag uint64) %s { sideOrd = sideOrd*31 + tag; return v }\n\nfunc sideu(v uint, tag uint64) uint { sideOrd = sideOrd*31 + tag; return v }\n\n", t.Name, t.Name)
 	cases := 0
 
 	// variable ∘ variable
@@ -254,6 +257,10 @@ func genIntProgram(t numType, r *rand.Rand, thorough bool, rot int) (map[string]
 			fmt.Fprintf(&b, "func sh_%s_%s(a %s, n %s) %s { return a %s n }\n", op.Name, ct, t.Name, ct, t.Name, op.Sym)
 		}
 		fmt.Fprintf(&b, "func sha_%s(a %s, n uint) %s { a %s= n; return a }\n", op.Name, t.Name, t.Name, op.Sym)
+		fmt.Fprintf(&b, "func shs_%s(a %s, n uint) %s { return sideo(a, 1) %s sideu(n, 2) }\n", op.Name, t.Name, t.Name, op.Sym)
+		for _, n := range []int{1, 31, 32, 40, 64} {
+			fmt.Fprintf(&b, "func shcs_%s_%d(a %s) %s { return sideo(a, 1) %s %d }\n", op.Name, n, t.Name, t.Name, op.Sym, n)
+		}
 		// constant counts
 		for _, n := range shiftCounts {
 			if n > 70 {
@@ -433,6 +440,16 @@ func genIntProgram(t numType, r *rand.Rand, thorough bool, rot int) (map[string]
 		fn := "sha_" + op.Name
 		body := "\t\tfor _, a := range grid {\n\t\t\tfor _, c := range counts {\n\t\t\tr := " + fn + "(a, uint(c))\n\t\t\tf.add64(" + digestExpr(t, "r") + ")\n\t\t\tn++\n\t\t\t}\n\t\t}\n"
 		emitDigest(fn, body)
+		fn = "shs_" + op.Name
+		body = "\t\tfor _, a := range grid {\n\t\t\tfor _, c := range counts {\n\t\t\tsideOrd = 0\n\t\t\tr := " + fn + "(a, uint(c))\n\t\t\tf.add64(" + digestExpr(t, "r") + ")\n\t\t\tf.add64(sideOrd)\n\t\t\tn++\n" +
+			sample("n%97 == 0", `"`+fn+`"`, showExpr(t, "a"), "u64s(c)", showExpr(t, "r"), "u64s(sideOrd)") + "\t\t\t}\n\t\t}\n"
+		emitDigest(fn, body)
+		for _, n := range []int{1, 31, 32, 40, 64} {
+			fn := fmt.Sprintf("shcs_%s_%d", op.Name, n)
+			body := "\t\tfor _, a := range grid {\n\t\t\tsideOrd = 0\n\t\t\tr := " + fn + "(a)\n\t\t\tf.add64(" + digestExpr(t, "r") + ")\n\t\t\tf.add64(sideOrd)\n\t\t\tn++\n" +
+				sample("n%41 == 0", `"`+fn+`"`, showExpr(t, "a"), showExpr(t, "r"), "u64s(sideOrd)") + "\t\t}\n"
+			emitDigest(fn, body)
+		}
 		for _, n := range shiftCounts {
 			if n > 70 {
 				continue
